@@ -393,6 +393,16 @@ def run(M, rec, tier, seed, k, n):
     # node equations evaluated for K nodes / instants at once: a column never depends on another one
     batched.batched_primitives(M, rec, rng, PROP, 300 if tier == "quick" else 3000, which=batched.NODE_PRIMS)
     kind_with_a_nominal_state(M, rec, rng, 24 if tier == "quick" else 240)
+    # scripted in every run: a corridor whose INTERIOR nodes are falsy user-defined nodes (what a node's entering / leaving
+    # links are does not depend on its truth value)
+    for st in ("SX", "MX"):
+        dsc = {"nodes": ["n0", "n1", "n2", "n3"],
+               "links": [{"id": f"L{i}", "name": f"L{i}", "up": f"n{i}", "down": f"n{i + 1}", "N": 3, "lam": 2, "L": 1.0, "rho_max": 180.0, "rho_crit": 33.5, "v_free": 102.0,
+                          "a": 1.867, "beta": 1.0, "vsl": None, "alpha": None} for i in range(3)],
+               "origins": [{"id": "O0", "name": "O0", "node": "n0", "kind": "main", "C": None, "eq": None}],
+               "dests": [{"id": "D0", "name": "D0", "node": "n3", "kind": "free"}], "falsy_nodes": ["n1", "n2"]}
+        rec.count("corridors_with_falsy_interior_nodes")
+        taint(M, rec, rng, dsc, g.pars(), st)
     for it in range(90 if tier == "quick" else 700):
         shape = next(sh)
         desc = g.all_kinds_network() if it % 6 == 0 else g.network(shape)[1]
